@@ -6,7 +6,10 @@ About the **pool model** of `Model/Pool.lean` (an assumption about rayon, see DE
 the tie to the real crate is the complete enumeration of stage widths × pool sizes × modes by
 the `rendezvous` engine): with at least as many workers as the stage has groups, systems that
 wait for all their siblings to be inside `run` never deadlock and do meet; with fewer workers
-they do deadlock — so the hypothesis is exactly what is needed.
+they do deadlock — so the hypothesis is exactly what is needed. Then: which pool every dispatcher
+of a builder runs on (model of the pool slots of `builder.rs`), and the async dispatcher over
+*sequences* of calls (model of `Data` in `async_dispatcher.rs`): the calling thread, never a pool
+thread, waits for the previous dispatch, so every dispatch of every sequence has the whole pool.
 -/
 namespace Shred
 
@@ -310,6 +313,130 @@ theorem C11_nested_batch_pool_witness :
     (⟨some 2, 2, [4]⟩ : Disp).completes = false ∧
     ((PB.pool 8 (.batch 2 [4] .nil .nil)).build 2 [1]).all Disp.completes = true := by decide
 
+/-! ## The async dispatcher over a sequence of calls (model of `async_dispatcher.rs`) -/
+
+/-- at most the job of the last dispatch is unfinished, and exactly when `data` is `Data::Rx`; no
+dispatch ever had another unfinished job next to it -/
+def ASt.Inv (s : ASt) : Prop := s.flying = (if s.rx then 1 else 0) ∧ ∀ b ∈ s.others, b = 0
+
+theorem bumpNewest_zero (l : List Nat) : bumpNewest 0 l = l := by simp [bumpNewest]
+
+theorem bumpNewest_length (k : Nat) (l : List Nat) : (bumpNewest k l).length = l.length := by
+  simp only [bumpNewest, List.length_append, List.length_map, List.length_take, List.length_drop]
+  omega
+
+theorem ainv_inner {s : ASt} (h : s.Inv) : s.inner.Inv ∧ s.inner.rx = false ∧ s.inner.flying = 0 ∧
+    s.inner.others = s.others := by
+  obtain ⟨rx, flying, others⟩ := s
+  obtain ⟨h1, h2⟩ := h
+  cases rx with
+  | true =>
+    have h1 : flying = 1 := by simpa using h1
+    subst h1
+    exact ⟨⟨rfl, h2⟩, rfl, rfl, rfl⟩
+  | false =>
+    have h1 : flying = 0 := by simpa using h1
+    subst h1
+    exact ⟨⟨rfl, h2⟩, rfl, rfl, rfl⟩
+
+theorem ainv_call {s : ASt} (h : s.Inv) (c : ACall) : (s.call c).Inv := by
+  cases c with
+  | dispatch =>
+    obtain ⟨⟨_, h2⟩, _, hf, _⟩ := ainv_inner h
+    refine ⟨by simp [ASt.call, ASt.spawn, hf], ?_⟩
+    intro b hb
+    simp only [ASt.call, ASt.spawn, hf, bumpNewest_zero, List.mem_cons] at hb
+    rcases hb with rfl | hb
+    · rfl
+    · exact h2 b hb
+  | wait => exact (ainv_inner h).1
+  | waitWithoutTl => exact (ainv_inner h).1
+  | world => exact (ainv_inner h).1
+  | running sent =>
+    cases sent with
+    | true => simpa [ASt.call] using (ainv_inner h).1
+    | false => simpa [ASt.call] using h
+
+theorem ainv_run {s : ASt} (h : s.Inv) (calls : List ACall) : (s.run calls).Inv := by
+  induction calls generalizing s with
+  | nil => exact h
+  | cons c cs ih => exact ih (ainv_call h c)
+
+theorem ainv_init : ASt.init.Inv := by simp [ASt.Inv, ASt.init]
+
+/-- **C11 (async dispatcher, the caller does the waiting).** In every state reachable by any
+sequence of `dispatch` / `wait` / `wait_without_tl` / `world` / `running` calls — whatever
+`running` observes — there is at most one unfinished job, the one `data` is waiting for: a second
+`dispatch` is not spawned before the first has handed the systems back. -/
+theorem C11_async_one_job (calls : List ACall) :
+    (ASt.init.run calls).flying = if (ASt.init.run calls).rx then 1 else 0 :=
+  (ainv_run ainv_init calls).1
+
+/-- **C11 (async dispatcher, the whole pool for every dispatch).** However many dispatches were
+issued before it, with or without `wait` in between, no dispatch ever shares the pool with another
+unfinished job of the dispatcher: the workers available to its stages are all those of the pool. -/
+theorem C11_async_whole_pool (calls : List ACall) : ∀ b ∈ asyncOthers calls, b = 0 := by
+  intro b hb
+  exact (ainv_run ainv_init calls).2 b (by simpa [asyncOthers] using hb)
+
+theorem run_others_length (s : ASt) (calls : List ACall) :
+    (s.run calls).others.length = s.others.length + nDispatch calls := by
+  induction calls generalizing s with
+  | nil => simp [ASt.run, nDispatch]
+  | cons c cs ih =>
+    have hi : s.inner.others = s.others := by unfold ASt.inner; split <;> rfl
+    rw [ASt.run, ih]
+    cases c with
+    | dispatch => simp [ASt.call, ASt.spawn, nDispatch, bumpNewest_length, hi]; omega
+    | wait => simp [ASt.call, nDispatch, hi]
+    | waitWithoutTl => simp [ASt.call, nDispatch, hi]
+    | world => simp [ASt.call, nDispatch, hi]
+    | running sent => cases sent <;> simp [ASt.call, nDispatch, hi]
+
+/-- every `dispatch()` of the sequence is accounted for -/
+theorem C11_async_every_dispatch (calls : List ACall) : (asyncOthers calls).length = nDispatch calls := by
+  simp [asyncOthers, run_others_length, ASt.init]
+
+/-- **C11 (async dispatcher, sequences of calls).** On a pool of `p` threads, every dispatch of
+every call sequence — back to back or with waits in between — lets a stage of `n ≤ p` groups
+rendezvous; and a stage of more groups than threads never does: the prediction for a sequence is
+the prediction for a single dispatch, once per `dispatch()`. -/
+theorem C11_async_sequence (p n : Nat) (calls : List ACall) :
+    asyncVerdicts p n calls = List.replicate (nDispatch calls) (decide (n ≤ p)) := by
+  have hl := C11_async_every_dispatch calls
+  have h0 := C11_async_whole_pool calls
+  unfold asyncVerdicts
+  apply List.ext_getElem
+  · simp [hl]
+  · intro i h1 h2
+    have hi : i < (asyncOthers calls).length := by simpa using h1
+    have hz : (asyncOthers calls)[i] = 0 := h0 _ (List.getElem_mem hi)
+    simp only [List.getElem_map, List.getElem_replicate, hz, poolCompletesBusy, Nat.sub_zero]
+    by_cases hle : n ≤ p
+    · simp [hle, C11_poolCompletes_iff.2 hle]
+    · have : poolCompletes p n = false := by
+        cases hc : poolCompletes p n with
+        | false => rfl
+        | true => exact absurd (C11_poolCompletes_iff.1 hc) hle
+      simp [hle, this]
+
+theorem C11_async_sequence_rendezvous {p n : Nat} (hle : n ≤ p) (calls : List ACall) :
+    ∀ v ∈ asyncVerdicts p n calls, v = true := by
+  intro v hv
+  rw [C11_async_sequence] at hv
+  simpa [hle] using (List.mem_replicate.1 hv).2
+
+/-- three dispatches back to back, `running` in between, then `wait`: three entries, all `0`;
+a stage of 4 on a pool of 4 meets in each of them, a stage of 5 in none -/
+example : asyncOthers [.dispatch, .dispatch, .running false, .dispatch, .wait] = [0, 0, 0] ∧
+    asyncVerdicts 4 4 [.dispatch, .dispatch, .running false, .dispatch, .wait] = [true, true, true] ∧
+    asyncVerdicts 4 5 [.dispatch, .running true, .dispatch, .world] = [false, false] := by decide
+
+/-- the bookkeeping is not vacuous: were a job spawned while another is unfinished (no
+`Data::inner` first), both would be recorded as sharing the pool -/
+example : (ASt.init.inner.spawn.spawn).others = [1, 1] ∧
+    (ASt.init.inner.spawn.spawn.spawn).others = [2, 2, 2] := by decide
+
 /-- the executable prediction used by the correspondence run, on a few sizes (these are tests) -/
 example : poolCompletes 16 16 = true ∧ poolCompletes 19 16 = true ∧ poolCompletes 3 4 = false ∧
     poolCompletes 2 2 = true := by decide
@@ -339,3 +466,15 @@ end Shred
 #print axioms Shred.C11_user_pool
 #print axioms Shred.C11_user_pool_rendezvous
 #print axioms Shred.C11_nested_batch_pool_witness
+#print axioms Shred.bumpNewest_zero
+#print axioms Shred.bumpNewest_length
+#print axioms Shred.ainv_inner
+#print axioms Shred.ainv_call
+#print axioms Shred.ainv_run
+#print axioms Shred.ainv_init
+#print axioms Shred.C11_async_one_job
+#print axioms Shred.C11_async_whole_pool
+#print axioms Shred.run_others_length
+#print axioms Shred.C11_async_every_dispatch
+#print axioms Shred.C11_async_sequence
+#print axioms Shred.C11_async_sequence_rendezvous
